@@ -19,6 +19,34 @@ NOT_DECIDED = ["equality of engine states over all add/remove sequences (reversi
 ASSUMPTIONS = ["std::deque::emplace_front / std::remove_if / erase behave per the standard"]
 
 
+def handoff_queue_fifo(ctx):
+    """Shared by C13 (LIFO order of drop-ins) and C14 (convergence to the files present)."""
+    P = ctx.prog
+    # the hand-off queue is a FIFO of requests: producers only append, nobody rewrites or removes a pending entry
+    from ..lockset import alias_write_nodes
+    QF = "Oomd::DropInServiceAdaptor::drop_in_queue_"
+    APPEND = {"emplace_back", "push_back"}
+    WHOLE = {"operator=", "clear", "swap", "size", "empty", "begin", "end", "cbegin", "cend", "rbegin", "rend", "crbegin", "crend", "front", "back", "reserve"}
+    n_q = 0
+    for f in P.fns.values():
+        for i, n in enumerate(f.nodes):
+            if n["k"] == "call" and "recv" in n and f.pos_of(i) is not None:
+                r = f.nodes[f.strip(n["recv"])]
+                if r["k"] == "member" and r.get("qname") == QF:
+                    n_q += 1
+                    nm = n.get("cname") or ""
+                    ctx.check(nm in APPEND or nm in WHOLE or n.get("op") == "=", "queue-is-fifo:%s@%s" % (short(f), nm), "who-may-write (append only)", f.loc(i),
+                              "%s on the hand-off queue keeps arrival order" % nm,
+                              "%s on the hand-off queue is not an append: requests are no longer applied in the order they were made" % nm)
+        for i in alias_write_nodes(f, QF):
+            n_q += 1
+            ctx.violation("queue-is-fifo:%s@in-place-write" % short(f), "who-may-write (append only, iterator aliases)", f.loc(i),
+                          "a pending entry of the hand-off queue is rewritten in place: the newer request keeps the position of the older one, so a "
+                          "re-added tag is no longer moved to the front (LIFO order of drop-ins) when another tag was queued in between")
+    ctx.counters["queue_operations"] = n_q
+    ctx.floor("queue_operations", 2, "operations on drop_in_queue_ (the two producers' appends)")
+
+
 def run(ctx):
     # locals / parameters the rules below refer to by name (a rename makes the analysis 'broken', never a violation)
     ctx.anchor(ctx.fn1('Oomd::Engine::Engine::removeDropInConfig'), 'n', 'tag')
@@ -296,29 +324,7 @@ def run(ctx):
             r0 = [up.text(x) for x in up.nodes[rmv[0]]["args"]] if rmv else ["?"]
             ctx.check(a[0] == r0[0], "update:same-tag", "provenance", up.loc(i), "removes and adds the same tag", "tags differ: %s / %s" % (r0[0], a[0]))
         ctx.check(forward_iteration(up, L), "update:queue-order", "loop-shape", up.loc(L["stmt"]), "queue entries are applied in arrival order", "queue not traversed forward")
-    # the hand-off queue is a FIFO of requests: producers only append, nobody rewrites or removes a pending entry
-    from ..lockset import alias_write_nodes
-    QF = "Oomd::DropInServiceAdaptor::drop_in_queue_"
-    APPEND = {"emplace_back", "push_back"}
-    WHOLE = {"operator=", "clear", "swap", "size", "empty", "begin", "end", "cbegin", "cend", "rbegin", "rend", "crbegin", "crend", "front", "back", "reserve"}
-    n_q = 0
-    for f in P.fns.values():
-        for i, n in enumerate(f.nodes):
-            if n["k"] == "call" and "recv" in n and f.pos_of(i) is not None:
-                r = f.nodes[f.strip(n["recv"])]
-                if r["k"] == "member" and r.get("qname") == QF:
-                    n_q += 1
-                    nm = n.get("cname") or ""
-                    ctx.check(nm in APPEND or nm in WHOLE or n.get("op") == "=", "queue-is-fifo:%s@%s" % (short(f), nm), "who-may-write (append only)", f.loc(i),
-                              "%s on the hand-off queue keeps arrival order" % nm,
-                              "%s on the hand-off queue is not an append: requests are no longer applied in the order they were made" % nm)
-        for i in alias_write_nodes(f, QF):
-            n_q += 1
-            ctx.violation("queue-is-fifo:%s@in-place-write" % short(f), "who-may-write (append only, iterator aliases)", f.loc(i),
-                          "a pending entry of the hand-off queue is rewritten in place: the newer request keeps the position of the older one, so a "
-                          "re-added tag is no longer moved to the front (LIFO order of drop-ins) when another tag was queued in between")
-    ctx.counters["queue_operations"] = n_q
-    ctx.floor("queue_operations", 2, "operations on drop_in_queue_ (the two producers' appends)")
+    handoff_queue_fifo(ctx)
 
     # ------------------------------------------------ evaluation order (shared with C02)
     for q, callee in (("Oomd::Engine::Engine::prerun", "Ruleset::prerun"), ("Oomd::Engine::Engine::runOnce", "Ruleset::runOnce")):
